@@ -588,6 +588,116 @@ def _c13_parse(src: Src) -> str:
     return f"def parseSrc : List String := {lean_str_list(pinned_source(src, 'estruct', 'Representation.parse'))}"
 
 
+# ---- C11: inventory of process-wide mutable state and of the places that mutate it ---------------
+
+MUTATORS = {"add", "append", "update", "pop", "clear", "setdefault", "extend", "remove", "discard", "insert", "popitem", "sort",
+            "reverse", "appendleft", "__setitem__"}
+MODULES = ["__init__", "estruct", "schema_instance", "cobol_parser", "workbook", "implementations"]
+
+
+def _is_mutable_value(v: ast.AST) -> bool:
+    if isinstance(v, (ast.Dict, ast.List, ast.Set, ast.ListComp, ast.DictComp, ast.SetComp)):
+        return True
+    if isinstance(v, ast.Call) and isinstance(v.func, ast.Name) and v.func.id in ("dict", "list", "set", "defaultdict", "OrderedDict", "Counter", "deque"):
+        return True
+    return False
+
+
+def state_inventory(src: Src) -> list[str]:
+    shared: list[str] = []     # process-wide objects that could carry history
+    sites: list[str] = []      # statements that mutate process-wide state
+    class_attrs: dict[str, set[str]] = {}     # class -> class-level attribute names
+    module_names: dict[str, set[str]] = {}    # module -> module-level names bound to mutable objects / instances
+    singleton_classes: set[str] = set()
+    classes: set[str] = set()
+    for m in MODULES:
+        try:
+            tree = src.mod(m)
+        except (FileNotFoundError, SyntaxError) as ex:
+            raise Unavailable(f"module {m}: {ex}")
+        module_names[m] = set()
+        for st in tree.body:
+            if isinstance(st, ast.ClassDef):
+                classes.add(st.name)
+                attrs = set()
+                for b in st.body:
+                    targets = []
+                    if isinstance(b, ast.Assign):
+                        targets, val = [t for t in b.targets if isinstance(t, ast.Name)], b.value
+                    elif isinstance(b, ast.AnnAssign) and isinstance(b.target, ast.Name) and b.value is not None:
+                        targets, val = [b.target], b.value
+                    else:
+                        continue
+                    for t in targets:
+                        attrs.add(t.id)
+                        kind = "mutable" if _is_mutable_value(val) else "scalar"
+                        shared.append(f"class-attr {m}.{st.name}.{t.id} ({kind})")
+                class_attrs[st.name] = attrs
+            elif isinstance(st, (ast.Assign, ast.AnnAssign)):
+                val = st.value
+                tgts = st.targets if isinstance(st, ast.Assign) else [st.target]
+                for t in tgts:
+                    if isinstance(t, ast.Name) and val is not None:
+                        if _is_mutable_value(val):
+                            shared.append(f"module-object {m}.{t.id}")
+                            module_names[m].add(t.id)
+                        elif isinstance(val, ast.Call) and isinstance(val.func, ast.Name) and val.func.id[:1].isupper():
+                            shared.append(f"module-instance {m}.{t.id} = {val.func.id}()")
+                            module_names[m].add(t.id)
+                            singleton_classes.add(val.func.id)
+    all_class_attrs = set().union(*class_attrs.values()) if class_attrs else set()
+    for m in MODULES:
+        tree = src.mod(m)
+        for fn, qual in _functions(tree):
+            in_singleton = qual.split(".")[0] in singleton_classes
+            for node in ast.walk(fn):
+                if isinstance(node, ast.Global):
+                    sites.append(f"global {m}.{qual}: {', '.join(node.names)}")
+                # default arguments that are mutable objects are shared across calls
+                tgt_list: list[ast.AST] = []
+                if isinstance(node, ast.Assign):
+                    tgt_list = list(node.targets)
+                elif isinstance(node, (ast.AugAssign, ast.AnnAssign)):
+                    tgt_list = [node.target]
+                for t in tgt_list:
+                    if isinstance(t, ast.Attribute) and isinstance(t.value, ast.Name) and t.value.id in classes:
+                        sites.append(f"assign {m}.{qual}: {ast.unparse(t)}")
+                    if isinstance(t, ast.Attribute) and isinstance(t.value, ast.Name) and t.value.id == "cls":
+                        sites.append(f"assign {m}.{qual}: {ast.unparse(t)}")
+                    if isinstance(t, ast.Subscript):
+                        base = t.value
+                        if isinstance(base, ast.Name) and base.id in module_names[m]:
+                            sites.append(f"setitem {m}.{qual}: {ast.unparse(base)}[…]")
+                        if isinstance(base, ast.Attribute) and (base.attr in all_class_attrs or
+                                                                (in_singleton and ast.unparse(base.value) == "self")):
+                            sites.append(f"setitem {m}.{qual}: {ast.unparse(base)}[…]")
+                if isinstance(node, ast.Call) and isinstance(node.func, ast.Attribute) and node.func.attr in MUTATORS:
+                    recv = node.func.value
+                    if isinstance(recv, ast.Name) and recv.id in module_names[m]:
+                        sites.append(f"mutate {m}.{qual}: {ast.unparse(recv)}.{node.func.attr}()")
+                    if isinstance(recv, ast.Attribute) and recv.attr in all_class_attrs and recv.attr.isupper():
+                        sites.append(f"mutate {m}.{qual}: {ast.unparse(recv)}.{node.func.attr}()")
+            for d in fn.args.defaults + [d for d in fn.args.kw_defaults if d is not None]:
+                if _is_mutable_value(d):
+                    shared.append(f"mutable-default {m}.{qual}: {ast.unparse(d)}")
+    return sorted(set(shared)) + ["--"] + sorted(set(sites))
+
+
+def _functions(tree: ast.Module):
+    for st in tree.body:
+        if isinstance(st, (ast.FunctionDef, ast.AsyncFunctionDef)):
+            yield st, st.name
+        elif isinstance(st, ast.ClassDef):
+            for b in st.body:
+                if isinstance(b, (ast.FunctionDef, ast.AsyncFunctionDef)):
+                    yield b, f"{st.name}.{b.name}"
+
+
+@item("C11", "stateInventory", "def stateInventory : List String := [] -- extraction unavailable")
+def _c11_inventory(src: Src) -> str:
+    return f"def stateInventory : List String := {lean_str_list(state_inventory(src))}"
+
+
 # ------------------------------------------------------------------------------------------
 # driver
 # ------------------------------------------------------------------------------------------
